@@ -525,6 +525,38 @@ from . import mbi as _mbi        # noqa: E402
 from . import oracle as _oracle  # noqa: E402
 
 
+def rand_utf8_(rng, n):
+    alphabet = ["a", "b", "Z", " ", "0", "-", "/", "é", "ß", "€", "😀", "\u0001", "~"]
+    return "".join(rng.choice(alphabet) for _ in range(n)).encode("utf-8")
+
+
+def string_ctor_cases(rng, tier):
+    """the three string constructors: every length 0..17 and some longer, ASCII and multi-byte texts, each also WITH a
+    trailing NUL (stored as it is), texts that are only a NUL / only multi-byte characters"""
+    cases = []
+    for name, pre in (("cmdline", 0), ("loader", 0), ("module", 8)):
+        def emit(s):
+            p = b""
+            if pre:
+                a = rng.getrandbits(31)
+                p = u32(a) + u32(a + rng.randrange(1, 1 << 20))
+            cases.append("CTOR %s %s" % (name, hx(p + s)))
+        for n in list(range(0, 18)) + [31, 32, 33, 100, 255, 256, 257, 1000]:
+            for _ in range(2 if tier == "quick" else 8):
+                s = rand_utf8_(rng, n)
+                emit(s)
+                emit(s + b"\0")
+        for s in ("ü", "€", "😀", "aü", "üa", "grüb", "日本語", "a€😀z"):
+            emit(s.encode("utf-8"))
+            emit(s.encode("utf-8") + b"\0")
+        emit(b"\0")
+    cases.append("CTOR module " + hx(u32(5) + u32(5) + b"x"))
+    cases.append("CTOR module " + hx(u32(6) + u32(5) + b"x"))
+    cases.append("CTOR module " + hx(u32(0xFFFFFFFE) + u32(0xFFFFFFFF)))
+    return cases
+
+
+
 class SweepProp(PropDef):
     oracle_fn = None
     trivial_prefixes = ()
@@ -581,7 +613,15 @@ class C17(SweepProp):
             "0..3 bytes before the end; CTOR cases: the three constructors on random valid strings. Non-trivial = distinct cases that load.")
 
     def gen(self, tier, rng):
-        return _mbi.gen_strings(rng, 3 if tier == "quick" else 4, 150 if tier == "quick" else 1500) + (PROPS["C07"].string_ctor_cases(rng, tier) if "C07" in PROPS else [])
+        return _mbi.gen_strings(rng, 3 if tier == "quick" else 4, 150 if tier == "quick" else 1500) + string_ctor_cases(rng, tier)
+
+    def oracle(self, case, impl, config):
+        if case.startswith("CTOR"):
+            try:
+                return _oracle.c07_oracle(case, impl)
+            except Exception as e:
+                return "oracle could not parse the observation: %r" % (e,)
+        return super().oracle(case, impl, config)
 
 
 @register
@@ -596,7 +636,15 @@ class C05(SweepProp):
 
     def gen(self, tier, rng):
         return (_mbi.gen_sizes(rng, 1 if tier == "quick" else 4) + _mbi.gen_fb(rng) + _mbi.gen_strings(rng, 2, 40) +
-                _mbi.gen_wellformed(rng, 30) + _mbi.gen_scale(rng))
+                _mbi.gen_wellformed(rng, 30) + _mbi.gen_scale(rng) + _mbi.gen_inforeq_sizes(rng))
+
+    def oracle(self, case, impl, config):
+        if case.startswith("HSWEEP"):
+            try:
+                return _oracle.c05_h_oracle(case, impl)
+            except Exception as e:
+                return "oracle could not parse the observation: %r" % (e,)
+        return super().oracle(case, impl, config)
 
 
 @register
@@ -691,26 +739,8 @@ class C07(PropDef):
     def configs(self, tier):
         return ["dev", "release"]
 
-    def string_ctor_cases(self, rng, tier):
-        cases = []
-        for name, pre in (("cmdline", 0), ("loader", 0), ("module", 8)):
-            for n in list(range(0, 18)) + [31, 32, 33, 100, 255, 256, 257, 1000]:
-                for _ in range(2 if tier == "quick" else 8):
-                    s = rand_utf8(rng, n)
-                    if rng.random() < 0.15:
-                        s += b"\0"
-                    p = b""
-                    if pre:
-                        a = rng.getrandbits(31)
-                        p = u32(a) + u32(a + rng.randrange(1, 1 << 20))
-                    cases.append("CTOR %s %s" % (name, hx(p + s)))
-        cases.append("CTOR module " + hx(u32(5) + u32(5) + b"x"))
-        cases.append("CTOR module " + hx(u32(6) + u32(5) + b"x"))
-        cases.append("CTOR module " + hx(u32(0xFFFFFFFE) + u32(0xFFFFFFFF)))
-        return cases
-
     def gen(self, tier, rng):
-        cases = self.string_ctor_cases(rng, tier)
+        cases = string_ctor_cases(rng, tier)
         reps = 6 if tier == "quick" else 40
         for name, (fixed, var) in CTOR_BLOB.items():
             tails = [0] if var is None else list(range(0, 18)) + [24, 40, 47, 48, 64, 100, 255, 256, 257, 1000, 4097]
@@ -777,12 +807,20 @@ class C16(PropDef):
                     for k in (2, 3):
                         for cuts in itertools.combinations_with_replacement(range(total + 1), k - 1):
                             parts = [content[a:b] for a, b in zip((0,) + cuts, cuts + (total,))]
-                            cases.append("BOXED %s %s %s" % (kind, hx(hdr), ",".join(p.hex() for p in parts) or "-"))
+                            cases.append("BOXED %s %s %s" % (kind, hx(hdr), ",".join(p.hex() or "e" for p in parts) or "-"))
+                if total:
+                    h = total // 2
+                    for parts in ([b"", content], [content, b""], [content[:h], b"", content[h:]], [b"", b"", content],
+                                  [b"", content[:h], b"", content[h:], b""]):
+                        cases.append("BOXED %s %s %s" % (kind, hx(hdr), ",".join(p.hex() or "e" for p in parts)))
+                else:
+                    cases.append("BOXED %s %s e" % (kind, hx(hdr)))
+                    cases.append("BOXED %s %s e,e" % (kind, hx(hdr)))
                 for k in (0, 2, 3, 4):
                     parts = partitions(content, rng, k) if k else []
                     if k == 0 and total:
                         continue
-                    cases.append("BOXED %s %s %s" % (kind, hx(hdr), ",".join(p.hex() for p in parts) or "-"))
+                    cases.append("BOXED %s %s %s" % (kind, hx(hdr), ",".join(p.hex() or "e" for p in parts) or "-"))
         fixed = {"generic": (0x1337, 8), "cmdline": (1, 8), "loader": (2, 8), "module": (3, 16), "efimmap": (17, 16), "elf": (9, 20),
                  "smbios": (13, 16), "fb": (8, 32), "network": (16, 8)}
         for kind, (typ, fx) in fixed.items():
@@ -876,6 +914,17 @@ class C06(PropDef):
             cases.append("BUILD " + ",".join(mbi_op(rng, s) for s in slots))
         for _ in range(20):
             cases.append("BUILD " + ",".join(mbi_op(rng, s) for s in rng.sample(MBI_SLOTS, len(MBI_SLOTS))))
+        # tag contents that end in the byte image of an end tag (type 0, size 8) or of another tag header: the terminator
+        # must still be appended exactly once and every supplied tag must come back
+        for pat in (u32(0) + u32(8), u32(0) + u32(0), u32(1) + u32(9)):
+            lookalikes = ["meminfo:%s" % hx(pat), "efi64:%s" % hx(pat), "ih64:%s" % hx(pat),
+                          "custom:%s" % hx(u32(0x1337) + rbytes(rng, 8) + pat), "custom:%s" % hx(u32(22) + pat),
+                          "smbios:%s" % hx(rbytes(rng, 8) + pat), "network:%s" % hx(rbytes(rng, 8) + pat),
+                          "elf:%s" % hx(rbytes(rng, 12) + rbytes(rng, 4) + pat), "efimmap:%s" % hx(u32(48) + u32(1) + rbytes(rng, 40) + pat)]
+            for op in lookalikes:
+                cases.append("BUILD " + op)
+                cases.append("BUILD %s,%s" % (mbi_op(rng, "cmdline"), op))
+                cases.append("BUILD %s,%s" % (op, mbi_op(rng, "loadbase")))
         for ty in (0, 1, 21):
             cases.append("BUILD custom:%s" % hx(u32(ty) + b"\x01\x02"))
         for n in (50, 300):
@@ -936,6 +985,22 @@ class C12(PropDef):
                 cases.append("HBUILD %d h_inforeq:%s" % (arch, hx(u16(rng.randrange(2)) + rbytes(rng, 4 * n))))
             for s_ in HDR_SLOTS:
                 cases.append("HBUILD %d %s,%s,%s" % (arch, hdr_op(rng, s_), hdr_op(rng, "h_modalign"), hdr_op(rng, s_)))
+            # tag contents that LOOK like structure: the last emitted tag ends in the byte image of an end tag (type 0, flags 0,
+            # size 8) or of another tag header; the terminator must still be appended and the walk must not be fooled
+            endpat = u32(0) + u32(8)
+            addr = "h_address:%s" % hx(u16(0) + rbytes(rng, 8) + endpat)
+            for n in range(2, 10):
+                ids = rbytes(rng, 4 * (n - 2)) + endpat
+                req = "h_inforeq:%s" % hx(u16(rng.randrange(2)) + ids)
+                cases.append("HBUILD %d %s" % (arch, req))
+                cases.append("HBUILD %d %s,%s" % (arch, req, addr))
+                cases.append("HBUILD %d %s,%s" % (arch, req, hdr_op(rng, "h_reloc")))
+            cases.append("HBUILD %d %s" % (arch, addr))
+            cases.append("HBUILD %d %s,%s" % (arch, hdr_op(rng, "h_inforeq"), addr))
+            cases.append("HBUILD %d %s,%s" % (arch, addr, hdr_op(rng, "h_entry")))
+            for pat in (u32(0) + u32(0), u16(6) + u16(0) + u32(8), u32(8) + u32(0)):
+                cases.append("HBUILD %d h_address:%s" % (arch, hx(u16(0) + rbytes(rng, 8) + pat)))
+                cases.append("HBUILD %d h_inforeq:%s" % (arch, hx(u16(0) + pat)))
         return cases
 
     def oracle(self, case, impl, config):
